@@ -250,6 +250,8 @@ class SchemaBuilder(
                 result["default"] = serialize(
                     field.type,
                     field.get_default(),
+                    # AliasedStr, for the dynamic aliaser to be applied
+                    aliaser=AliasedStr,
                     fall_back_on_any=False,
                     check_type=True,
                     conversion=field.serialization,
